@@ -127,6 +127,8 @@ def make_value(design, att, full, salt, depth=0):
         for k, f in enumerate(t["att"]["type"].get("object") or []):
             if not full and f["name"] not in req and (k + salt) % 2 == 0:
                 continue
+            if not full and f["name"] in req and f["att"]["type"].get("array"):
+                continue  # the service returns the required array as a nil slice (Go cannot tell it from an empty one)
             v = make_value(design, f["att"], full, salt + k, depth + 1)
             if v is not None:
                 out[f["name"]] = v
@@ -144,7 +146,7 @@ def make_value(design, att, full, salt, depth=0):
 
 def canon(v):
     if isinstance(v, dict):
-        return {k: canon(x) for k, x in v.items() if x is not None}
+        return {k: canon(x) for k, x in v.items() if x is not None and x != []}  # a nil slice and an empty one are the same value
     if isinstance(v, list):
         return [canon(x) for x in v]
     if isinstance(v, (int, float)) and not isinstance(v, bool):
@@ -350,8 +352,8 @@ def judge_design(c, b, drv):
         def only_nested_header_attrs(paths):
             return bool(paths) and all(p.count("/") > 1 and p.rsplit("/", 1)[1] in hdr_map for p in paths)
         if canon(body) != canon(expected):
-            leaked = sorted(set(flat_keys(body)) - set(flat_keys(expected)))
-            missing = sorted(set(flat_keys(expected)) - set(flat_keys(body)))
+            leaked = sorted(set(flat_keys(canon(body))) - set(flat_keys(canon(expected))))
+            missing = sorted(set(flat_keys(canon(expected))) - set(flat_keys(canon(body))))
             sig = "c08/wire-leak" if leaked else ("c08/wire-missing" if missing else "c08/wire-value")
             if rec_hdr and not leaked and only_nested_header_attrs(missing):
                 sig = "c08/header-mapped-attribute-lost-in-nested-self-reference"
@@ -375,8 +377,8 @@ def judge_design(c, b, drv):
                    input=inp, design=b.design)
         elif canon(drop_zero_extras(o.get("client_result"), expected)) != canon(expected):
             got = drop_zero_extras(o.get("client_result"), expected)
-            missing = sorted(set(flat_keys(expected)) - set(flat_keys(got)))
-            extra = sorted(set(flat_keys(got)) - set(flat_keys(expected)))
+            missing = sorted(set(flat_keys(canon(expected))) - set(flat_keys(canon(got))))
+            extra = sorted(set(flat_keys(canon(got))) - set(flat_keys(canon(expected))))
             sig = "c08/client-result"
             if rec_hdr and not extra and only_nested_header_attrs(missing):
                 sig = "c08/header-mapped-attribute-lost-in-nested-self-reference"
